@@ -280,3 +280,16 @@ Theorem C05_bounds_tight :
    filter (after 1000001 O_DISCONNECT) (tight_run 120 65000000) = []).
 Proof. exact (conj tight_reconnect tight_restart). Qed.
 Print Assumptions C05_bounds_tight.
+
+(* examples, witnesses and generated-list facts: closed as well *)
+Print Assumptions C05_timeout_range_values.
+Print Assumptions C05_keepalive_example.
+Print Assumptions C05_sites_guarded.
+Print Assumptions C05_bound_values.
+Print Assumptions C05_end_to_end_example.
+Print Assumptions C05_end_to_end_wrap_example.
+Print Assumptions C05_keepalive_history_example.
+Print Assumptions C05_keepalive_history_wrap_example.
+Print Assumptions C05_negotiation_example.
+Print Assumptions C05_negotiation_min_example.
+Print Assumptions C05_negotiation_below_window_example.
